@@ -1019,6 +1019,7 @@ fn run_many(s: &Scenario, seeds: Vec<u64>) -> Vec<ExecOut> {
         return;
       }
       fibre::verif::reset_virtual_clock();
+      CLONE_IS_SCHED_POINT.with(|c| c.set(true));
       PENDING_POLLS.with(|c| c.set(0));
       let log: SLog = Arc::new(Mutex::new(Log::default()));
       let reg = Registry::new();
@@ -1158,6 +1159,14 @@ fn judge(s: &Scenario, st: ExecState, panic_msg: Option<String>, drainer_exists:
         return out;
       }
     }
+  }
+  // C07: "an unread value is never overwritten" / C09: a value is not destroyed while a receiver
+  // is still copying it out of the channel
+  let torn = reg.torn();
+  if !torn.is_empty() {
+    let p = if s.flavour == Flavour::Broadcast { "C07" } else { "C09" };
+    out.failure = Some(Failure::new(p, format!("E3/{}/value_overwritten_while_being_read", s.flavour.name()), format!("schedule seed {seed}: value(s) {:?} were overwritten or destroyed in their slot while a receiver was cloning them out", torn)));
+    return out;
   }
   // C09 — every value dropped exactly once after all handles are gone
   let dd = reg.double_drops();
